@@ -4,7 +4,7 @@ CONSTANTS
   MaxLen = 2
   MaxIll = 1
   MaxRot = 1
-  Kinds <- KSmall
+  Kinds <- KAll
   Cuts <- CutsAll
   Ends <- EndsAll
   NCk = 8
